@@ -39,6 +39,9 @@ pub struct RefSlave {
     /// number of further diagnostics replies that report Station_Not_Ready although the slave is in
     /// data exchange (a slow device)
     pub not_ready_polls: u8,
+    /// a device that needs time after every accepted configuration: that many diagnostics replies
+    /// report Station_Not_Ready before it is ready
+    pub slow_start: u8,
     pub once_prm_fault: bool,
     pub once_cfg_fault: bool,
     pub once_prm_req: bool,
@@ -69,6 +72,7 @@ impl RefSlave {
             prm_fault: false,
             cfg_fault: false,
             not_ready_polls: 0,
+            slow_start: 0,
             once_prm_fault: false,
             once_cfg_fault: false,
             once_prm_req: false,
@@ -175,6 +179,7 @@ impl RefSlave {
                     if self.state != SlaveState::WaitPrm && *pdu == self.cfg {
                         self.state = SlaveState::DataExch;
                         self.cfg_fault = false;
+                        self.not_ready_polls = self.not_ready_polls.max(self.slow_start);
                     } else {
                         self.state = SlaveState::WaitPrm;
                         self.cfg_fault = true;
@@ -573,6 +578,9 @@ pub fn make_slave(p: &PerCfg) -> RefSlave {
         2 => vec![0x07, 1, 2, 3, 4, 5, 6],
         _ => vec![0x04, 9, 8, 7, 0x42, 0x00, 0x81, 0x88, 0x41, 0x81, 0x05, 0xA7],
     };
+    // slow devices: not ready for 2 or 5 diagnostics polls after every accepted configuration (by
+    // address) - more than a small retry limit allows for unanswered requests
+    s.slow_start = [0u8, 0, 0, 2, 5][usize::from(p.addr) % 5];
     s
 }
 
